@@ -9,6 +9,7 @@
 -/
 import BklProofs.Lemmas.Encode
 import BklProofs.Lemmas.C14Codec
+import BklProofs.Lemmas.Json
 namespace Bkl
 
 /-! ## C14_stack — a list of specs is applied left to right, stopping at the first failure -/
@@ -649,5 +650,69 @@ example :
       (nr _ (by simp)) (by decide)).2.2.2.1 "json" "1" rfl rfl (by decide)
   · exact (C14_decode_bad_args_model 1 [] .null [] _ (by decide)
       (nr _ (by simp)) (by decide)).2.2.2.2 "xml" "1" rfl rfl rfl (by simp [isCodecFormat])
+
+/-! ## C14_json_decode_encode — the JSON codec is no longer a hypothesis
+
+  `js_textCodec jf fol : TextCodec` (BklProofs/Lemmas/Json.lean) plugs the concrete JSON writer and
+  reader of Bkl/Json.lean into process2.go's two call sites: `enc v` is
+  `jsonMarshalStream([]any{v})` (the compact text and a newline), `decs s` is
+  `jsonUnmarshalStream` followed by `normalize`.  Its `rt` field is PROVED
+  (`C05_json_stream_roundtrip`), on `repr v := v.WF ∧ js_NumsOK jf fol v`: integers in int64,
+  float texts meeting `js_FloatOK` for the two float parameters. -/
+
+/-- the instance: its name, what it writes, what it reads, and its (proved) round trip -/
+theorem C14_json_codec (jf fol : String → String) :
+    (js_textCodec jf fol).name = "json" ∧
+    (∀ v, (js_textCodec jf fol).enc v = some (jsonEncodeStream jf [v])) ∧
+    (∀ s vs, (js_textCodec jf fol).decs s = some vs ↔ jsonLoadStream fol s = .ok vs) ∧
+    (∀ v, v.WF → js_NumsOK jf fol v →
+      ((js_textCodec jf fol).enc v).bind (js_textCodec jf fol).dec = some v) := by
+  refine ⟨rfl, fun _ => rfl, ?_, fun v hw hn => (js_textCodec jf fol).rt' v ⟨hw, hn⟩⟩
+  intro s vs
+  simp only [js_textCodec]
+  cases jsonLoadStream fol s with
+  | error e => simp
+  | ok ws => simp
+
+/-- **C14_json_decode_encode**: for a directive-free (`plain`) well-formed value `v` whose integers
+    fit int64 and whose float texts meet the float hypothesis, `$decode: json` of `$encode: json`
+    of `v` is the evaluation of `v` (= `v` with its nulls dropped) — outright, with the concrete
+    JSON codec. -/
+theorem C14_json_decode_encode (jf fol : String → String) (fuel : Nat) (docs : List Val)
+    (root : Val) (ec : Vars) (v : Val) (hp : plain v = true) (hw : v.WF) (hd : depth v < fuel)
+    (hn : js_NumsOK jf fol v) :
+    (encodeWith (js_textCodec jf fol) (fuel + 1) docs root ec [("$value", v)] (.str "json") >>=
+      fun t => decodeWith (js_textCodec jf fol) (fuel + 1) docs root ec [("$value", t)] "json")
+      = process2 (fuel + 1) docs root ec v ∧
+    process2 (fuel + 1) docs root ec v = .ok (dropNulls v) :=
+  C14_decode_encode (js_textCodec jf fol) fuel docs root ec v hp hw hd
+    ⟨e_wf_dropNulls_all.1 v hw, js_numsOK_dropNulls jf fol v hn⟩
+
+/-- … and the text in between is the compact JSON text of the evaluated value and a newline -/
+theorem C14_json_encode_text (jf fol : String → String) (fuel : Nat) (docs : List Val)
+    (root : Val) (ec : Vars) (v : Val) (hp : plain v = true) (hw : v.WF) (hd : depth v < fuel) :
+    encodeWith (js_textCodec jf fol) (fuel + 1) docs root ec [("$value", v)] (.str "json")
+      = .ok (.str (jsonEncodeStream jf [dropNulls v])) := by
+  have hp' : plain (dropNulls v) = true := (e_allStr_dropNulls_all _).1 v hp
+  have := C14_encode_text (js_textCodec jf fol) fuel docs root ec v (dropNulls v)
+    (cx_plain_noRepeat hp) (e_process2_plain fuel docs root ec v hp hw hd)
+    (e_validate_plain_all.1 _ hp')
+  exact this
+
+/-- non-vacuity: a nested value with nulls to drop, a float, escapes in a string -/
+example : plain (.map [("a", .int 1), ("b", .list [.str "x\n\"", .null, .flt "1e-07"]), ("c", .null)])
+      = true ∧
+    (Val.map [("a", .int 1), ("b", .list [.str "x\n\"", .null, .flt "1e-07"]), ("c", .null)]).WF ∧
+    depth (.map [("a", .int 1), ("b", .list [.str "x\n\"", .null, .flt "1e-07"]), ("c", .null)]) < 3 ∧
+    js_NumsOK js_demoJf js_demoFol
+      (.map [("a", .int 1), ("b", .list [.str "x\n\"", .null, .flt "1e-07"]), ("c", .null)]) := by
+  refine ⟨by decide, by decide, by decide, ?_⟩
+  simp only [js_NumsOK, js_NumsOKFields, js_NumsOKList, and_true, true_and]
+  exact ⟨by decide, js_demo_floatOK _ (by simp)⟩
+
+/-- … the text written for it -/
+example : jsonEncodeStream js_demoJf
+    [dropNulls (.map [("a", .int 1), ("b", .list [.str "x\n\"", .null, .flt "1e-07"]), ("c", .null)])]
+    = "{\"a\":1,\"b\":[\"x\\n\\\"\",1e-7]}\n" := by decide
 
 end Bkl
